@@ -379,6 +379,20 @@ func (gang *Gang) getCreateTime() time.Time {
 	return gang.CreateTime
 }
 
+func (gang *Gang) hasGangInit() bool {
+	gang.lock.RLock()
+	defer gang.lock.RUnlock()
+
+	return gang.HasGangInit
+}
+
+func (gang *Gang) getNetworkTopologySpec() *extension.NetworkTopologySpec {
+	gang.lock.RLock()
+	defer gang.lock.RUnlock()
+
+	return gang.NetworkTopologySpec
+}
+
 func (gang *Gang) getGangGroupId() string {
 	gang.lock.RLock()
 	defer gang.lock.RUnlock()
